@@ -66,6 +66,7 @@ type c01Case struct {
 	wmAst    *c01E         // its AST (nil: it does not parse)
 	reqs     []c01Req
 	nontriv  bool
+	mode     string // how the real enforcer is brought to the case's rules: "" = seq | load | inter | batch | mixed (c01_build.go)
 }
 
 func c01Tokens(key, val string) []string {
@@ -170,26 +171,20 @@ func c01Run(c *Ctx, cs *c01Case) {
 	for _, d := range cs.m {
 		m.AddDef("m", d.key, cs.mText(d))
 	}
-	e, err := casbin.NewEnforcer(m)
-	if err != nil {
-		panic(fmt.Sprint("NewEnforcer ", cs.id, " ", err))
-	}
+	// the rules are installed in the way cs.mode says (c01_build.go); whatever the way, the
+	// decisions must be those of the model, which depend on the listed order of the p rules and
+	// on the SET of links only
+	e := c01Construct(c, cs, m)
 	for _, d := range cs.p {
-		for _, r := range d.rules {
-			if ok, err := e.AddNamedPolicy(d.key, r); !ok || err != nil {
-				panic(fmt.Sprint("AddNamedPolicy ", cs.id, r, ok, err))
-			}
-		}
 		got, _ := e.GetNamedPolicy(d.key)
 		if rulesKey(got) != rulesKey(d.rules) {
-			c.Direct(cs.id, "stored policy order differs from insertion order", rulesKey(d.rules))
+			c.Direct(cs.id, "stored policy order differs from insertion order (construction mode "+cs.modeName()+")", rulesKey(d.rules))
 		}
 	}
 	for _, d := range cs.g {
-		for _, r := range d.rules {
-			if ok, err := e.AddNamedGroupingPolicy(d.key, r); !ok || err != nil {
-				panic(fmt.Sprint("AddNamedGroupingPolicy ", cs.id, r, ok, err))
-			}
+		got, _ := e.GetNamedGroupingPolicy(d.key)
+		if sortedRulesKey(got) != sortedRulesKey(d.rules) {
+			c.Direct(cs.id, "listed grouping rules of "+d.key+" differ from the installed ones (construction mode "+cs.modeName()+")", rulesKey(d.rules))
 		}
 	}
 	if cs.disabled {
@@ -366,6 +361,7 @@ func c01Run(c *Ctx, cs *c01Case) {
 		c.Obs(cs.id, o.step, o.val)
 	}
 	c.Count("fam=" + cs.fam)
+	c.Count("construction=" + cs.modeName())
 	c.Count(fmt.Sprintf("requests=%d", 10*(len(cs.reqs)/10)))
 	if cs.nontriv {
 		c.NonTrivial(cs.id)
